@@ -55,7 +55,7 @@ def m_langid(c, binp, tier, light=False):
         c.add_model(run_model("%s-%s" % (c.prop, name), "MC_LangId", consts, LI_INV, binp=binp, workers=10))
 
 
-def m_locale(c, binp, tier, modes=("loc", "ext"), light=False):
+def m_locale(c, binp, tier, modes=("loc", "ext"), light=False, deep=False):
     for mode in modes:
         if light:
             runs = [("%s-small4" % mode, dict(Depth=4, FullDepth=2, Alpha="small", Emit=True, Mode=mode))]
@@ -67,8 +67,9 @@ def m_locale(c, binp, tier, modes=("loc", "ext"), light=False):
                 runs += [("%s-tiny7" % mode, dict(Depth=7, FullDepth=2, Alpha="tiny", Emit=True, Mode=mode))]
         if tier == "thorough":
             runs += [("%s-d5" % mode, dict(Depth=5, FullDepth=2, Alpha="full", Emit=True, Mode=mode))]
-            if mode == "loc":
-                runs += [("%s-small7" % mode, dict(Depth=7, FullDepth=2, Alpha="small", Emit=True, Mode=mode)),
+            if mode == "loc" and deep:
+                # the deepest enumerations belong to the properties about the grammar itself (C03, C01)
+                runs += [("%s-small6" % mode, dict(Depth=6, FullDepth=2, Alpha="small", Emit=True, Mode=mode)),
                          ("%s-tiny9" % mode, dict(Depth=9, FullDepth=2, Alpha="tiny", Emit=True, Mode=mode))]
         for name, consts in runs:
             c.add_model(run_model("%s-%s" % (c.prop, name), "MC_Locale", consts, LOC_INV, binp=binp, workers=12, timeout=10800))
@@ -283,7 +284,7 @@ def C01(tier, seed):
     c = Check("C01", tier, seed)
     binp = build_harness(ALL)
     m_langid(c, binp, tier)
-    m_locale(c, binp, tier)
+    m_locale(c, binp, tier, deep=True)
     m_subtags(c, binp, tier, light=True)
     m_object(c, binp, tier, edges=True, hist=False, full=False)
     m_cldr(c, binp, tier, modes=("closure",))
@@ -314,7 +315,7 @@ def C02(tier, seed):
 def C03(tier, seed):
     c = Check("C03", tier, seed)
     binp = build_harness(ALL)
-    m_locale(c, binp, tier)
+    m_locale(c, binp, tier, deep=True)
     m_langid(c, binp, tier, light=True)
     m_dict(c, binp, tier)
     m_impl(c, binp, tier)
